@@ -164,3 +164,45 @@ Example c02_example_zero_ext : des_spec ex_outer [] = Ok (VStruct [VStruct [VInt
 Proof. vm_compute. reflexivity. Qed.
 Example c02_example_bad_header : des_spec ex_outer (bits_of_bytes [3; 0; 0; 0; 5]%N) = Err EBadHdr.
 Proof. vm_compute. reflexivity. Qed.
+
+(* ---- source tie of the template bodies (Codec/TplTie.v; Generated/Gen_CodecTpl.v is rescanned from the .j2 files on every run) ---- *)
+From Verif Require TplTieBase TplTieData Gen_CodecTpl TplTie.
+
+Theorem c02_c_templates_match_walker :
+  Gen_CodecTpl.gen_c_ser_dispatch = TplTieData.walker_c_ser_dispatch /\ Gen_CodecTpl.gen_c_ser_macros = TplTieData.walker_c_ser_macros /\
+  Gen_CodecTpl.gen_c_des_dispatch = TplTieData.walker_c_des_dispatch /\ Gen_CodecTpl.gen_c_des_macros = TplTieData.walker_c_des_macros.
+Proof. exact TplTie.c_templates_match_walker. Qed.
+Print Assumptions c02_c_templates_match_walker.
+
+Theorem c02_cpp_templates_match_walker :
+  Gen_CodecTpl.gen_cpp_ser_dispatch = TplTieData.walker_cpp_ser_dispatch /\ Gen_CodecTpl.gen_cpp_ser_macros = TplTieData.walker_cpp_ser_macros /\
+  Gen_CodecTpl.gen_cpp_des_dispatch = TplTieData.walker_cpp_des_dispatch /\ Gen_CodecTpl.gen_cpp_des_macros = TplTieData.walker_cpp_des_macros.
+Proof. exact TplTie.cpp_templates_match_walker. Qed.
+Print Assumptions c02_cpp_templates_match_walker.
+
+Theorem c02_py_templates_match_walker :
+  Gen_CodecTpl.gen_py_ser_dispatch = TplTieData.walker_py_ser_dispatch /\ Gen_CodecTpl.gen_py_ser_macros = TplTieData.walker_py_ser_macros /\
+  Gen_CodecTpl.gen_py_des_dispatch = TplTieData.walker_py_des_dispatch /\ Gen_CodecTpl.gen_py_des_macros = TplTieData.walker_py_des_macros.
+Proof. exact TplTie.py_templates_match_walker. Qed.
+Print Assumptions c02_py_templates_match_walker.
+
+(* the regenerated `_deserialize_integer` / `_deserialize_boolean` trees: capacity-guarded byte load iff aligned /\ unsigned /\
+   width <= 8, getter otherwise, bool always guarded by `offset_bits < capacity_bits` - Walker.r_prim's split *)
+Theorem c02_c_int_des_split_matches_walker : forall f,
+  TplTie.emits TplTieBase.KGuard TplTie.pat2 (TplTie.c_int_des f) = (TplTie.f_al f && TplTie.f_uns f && TplTie.f_le8 f)%bool /\
+  TplTie.emits TplTieBase.KCall TplTie.pat3 (TplTie.c_int_des f)
+    = negb (TplTie.f_al f && TplTie.f_uns f && TplTie.f_le8 f) /\
+  TplTie.emits TplTieBase.KGuard TplTie.pat4 (TplTie.c_bool_des f) = true.
+Proof. exact TplTie.c_int_des_split_matches_walker. Qed.
+Print Assumptions c02_c_int_des_split_matches_walker.
+
+(* arrays: bulk copy (nunavutCopyBits / nunavutGetBits) exactly for bool and zero-cost primitive elements, element loop otherwise;
+   the walker models all of them as the element loop (abstraction `TplTie.abs_array_path`) *)
+Theorem c02_c_array_paths : forall b p w z,
+  let f := TplTie.Build_aflags b p w z in
+  TplTie.emits TplTieBase.KCall TplTie.pat5 (TplTie.c_farr_ser f) = (b || (p && z))%bool /\
+  TplTie.emits TplTieBase.KMacro TplTie.pat6 (TplTie.c_farr_ser f) = negb (b || (p && z)) /\
+  TplTie.emits TplTieBase.KMacro TplTie.pat7 (TplTie.c_farr_des f) = negb (b || (p && z)) /\
+  TplTie.emits TplTieBase.KCall TplTie.pat8 (TplTie.c_farr_des f) = (b || (p && z))%bool.
+Proof. exact TplTie.c_array_paths. Qed.
+Print Assumptions c02_c_array_paths.
